@@ -10,8 +10,10 @@
 
    Not in `Built` (and why): an `Item::Table` below an inline table (InlineTable::insert and
    Array::push take a Value; only IndexMut on an inline-table parent can put one there, and the
-   printer drops it: DESIGN.md F13), `Item::None`, the formatting switches (set_implicit,
-   set_dotted, set_position, decor setters, *_formatted inserts). *)
+   printer drops it: DESIGN.md F13), `Item::None`, the formatting switches (set_dotted, set_position,
+   decor setters, *_formatted inserts).  Table::set_implicit(true) IS covered (BI_table / BI_aot carry the
+   flag; a table marked implicit must still print something below itself, or it vanishes from the text):
+   that is what toml's DocumentFormatter produces, see Props/C06toml.v. *)
 From TV Require Import Base.Prelude Base.Utf8 Base.Winnow Gen.Consts.
 From TV Require Import Model.Datetime Spec.DatetimeSpec Model.Numbers Model.Tree Model.Parse Model.Document Model.Write Model.Encode Model.Build.
 From TV Require Import Proofs.BuiltRTBase Proofs.BuiltRTEncode Proofs.BuiltRTValue Proofs.BuiltRTLeaf Proofs.BuiltRTTop.
